@@ -50,7 +50,7 @@ MODEL = dict(
         lambda ev: set_field(ev, ["obs", "bal", "a"], ev["obs"]["bal"]["a"] + 1) if ev["res"] == "fail" else None,
         lambda ev: set_field(ev, ["res"], "ok") if ev["op"]["op"] == "transfer" and ev["res"] == "fail"
         and ev["op"]["from"] != ev["op"]["to"] and ev["op"]["amt"] > 0 else None,
-        lambda ev: set_field(ev, ["evs"], []) if ev["evs"] else None,
+        lambda ev: set_field(ev, ["evs"], []) if any(x["k"] in ("mint", "burn", "transfer") for x in ev["evs"]) else None,
         lambda ev: set_field(ev, ["obs", "al", "a", "b"], ev["obs"]["al"]["a"]["b"] + 1),
     ],
 )
